@@ -1,5 +1,5 @@
 (* C05 - EBB3 command/query framing and fault handling.  Statements only. *)
-From Plotink Require Import Base.Prelude Base.PyStr Model.Serial3 Proofs.Serial3Proofs.
+From Plotink Require Import Base.Prelude Base.PyStr Model.Serial3 Proofs.Serial3Proofs Proofs.Serial3NoRaise.
 Open Scope Z_scope.
 
 (* framing of command: on a connected error-free object, if the write succeeds the trimmed text is written exactly once,
@@ -36,6 +36,41 @@ Theorem C05_primitives_no_raise : forall c s t sc, cmd_name (strip t) <> None ->
   (exists s' v w sc', query_statusbyte c s sc = (s', Ret v, w, sc')).
 Proof. exact primitives_no_raise. Qed.
 
+(* every public request method (all 30 of them), for every state of the object and every script whose lines are failing replies for the
+   request names the method uses - blank lines (timeouts), lines containing "Err:", lines that do not begin with the name - with faults and
+   silence anywhere: the method returns normally.  The side conditions exclude argument errors (a blank request text; a value outside the
+   signed 32-bit range for var_write_int32); fix_volt is the repaired reading of query_voltage / query_current (fix: commit in /repo) *)
+Theorem C05_request_methods_no_raise : forall c s k sc,
+  is_request k = true ->
+  match k with
+  | CCommand t => cmd_name (strip t) <> None
+  | CQuery t => cmd_name (strip t) <> None /\ qbad t sc
+  | CVarRead i => qbad (cat [T "QL,"; str_of_Z i]) sc
+  | CVarRead32 _ => forall j, qbad (cat [T "QL,"; str_of_Z j]) sc
+  | CVarWrite32 v _ => - 2147483648 <= v <= 2147483647
+  | CMotorsQuery | CMotorsOn _ _ => qbad (T "QE") sc
+  | CSteps => qbad (T "QS") sc
+  | CBRead p => qbad (cat [T "PI,B,"; str_of_Z p]) sc
+  | CVoltage _ | CCurrent => qbad (T "QC") sc /\ fix_volt c = true
+  | _ => True
+  end ->
+  exists s' v w sc', step c s k sc = (s', Ret v, w, sc').
+Proof. exact request_methods_no_raise. Qed.
+
+(* non-vacuity: a script of silence, an error line, a mismatched line and a fault is failing for the name QL, and a 4-byte read against it
+   returns its failure value *)
+Example C05_no_raise_nonvacuous :
+  let sc := [Empty; Empty; Line (T "!8 Err: unknown"); Empty; Line (T "ZZ,1"); Fault; Line (T "  ")] in
+  let s0 := mkebb true None (Some [3; 0; 3]) None in
+  bad_for (T "QL") sc /\ snd (fst (fst (var_read_int32 s0 5 sc))) = Ret RNone /\ snd (fst (fst (var_read s0 5 (Fault :: sc)))) = Ret RNone.
+Proof.
+  cbv zeta. split; [|split; vm_compute; reflexivity].
+  intros l [E|[E|[E|[E|[E|[E|[E|[]]]]]]]]; try discriminate E; inversion E; subst l; unfold bad_line; cbv zeta.
+  - right; left; vm_compute; reflexivity.
+  - right; right; vm_compute; reflexivity.
+  - left; vm_compute; reflexivity.
+Qed.
+
 (* attribution: against a conforming device every request of any sequence consumes exactly its own reply and returns it *)
 Theorem C05_attribution : forall c es s rest, Forall ex_ok es -> blocked s = false ->
   Forall2 (fun e ent => let '(pre, k, post, o, w) := ent in
@@ -56,3 +91,4 @@ Print Assumptions C05_query_frame.
 Print Assumptions C05_query_outcome.
 Print Assumptions C05_primitives_no_raise.
 Print Assumptions C05_attribution.
+Print Assumptions C05_request_methods_no_raise.
